@@ -238,12 +238,27 @@ def forall(f, lo, hi):
     if not _sym(lo, hi):
         vals = [f(j) for j in range(lo, hi)]
         return And(*vals) if _sym(*vals) else all(vals)
+    hz = z3.simplify(ops.z3int(hi))
+    if _SPLIT_LAST[0] and z3.is_add(hz) and hz.num_args() == 2 and z3.is_int_value(hz.arg(0)) and hz.arg(0).as_long() == 1:
+        # [lo, t+1) = [lo, t) and the point t: hands the solver the case split of an invariant's preservation step
+        t = hz.arg(1)
+        _SPLIT_LAST[0] = False
+        try:
+            rest = forall(f, lo, Sym(t, 'int'))
+            last = ops.z3bool(f(Sym(t, 'int')))
+        finally:
+            _SPLIT_LAST[0] = True
+        lz = ops.z3int(lo)
+        return ops.mk(z3.And(ops.z3bool(rest) if not isinstance(rest, bool) else z3.BoolVal(rest), z3.Implies(lz <= t, last)), 'bool')
     j = _bound()
     try:
         body = ops.z3bool(f(Sym(j, 'int')))
     finally:
         _unbound()
     return ops.mk(z3.ForAll([j], z3.Implies(z3.And(j >= ops.z3int(lo), j < ops.z3int(hi)), body)), 'bool')
+
+
+_SPLIT_LAST = [True]
 
 
 def forall_char(f):
